@@ -95,7 +95,7 @@ func makeHyperslab(slice [][]int, dims []int) (offset, stride, count, block []ui
 }
 
 func sliceSize(slice []int, size int) int {
-	return m.MaxInt(0, (m.MinInt(size, slice[1])-m.MinInt(size, slice[0]))) / slice[2]
+	return (m.MaxInt(0, (m.MinInt(size, slice[1])-m.MinInt(size, slice[0]))) + slice[2] - 1) / slice[2]
 }
 
 func openWriteOrCreate(fn string, createIfNotExist bool) (*hdf5.File, error) {
